@@ -19,9 +19,9 @@ from . import common, doecommon
 PROPERTY = 'C13'
 
 META = {
-    'bounds': {'quick': 'full factorial: 2- and 3-level generators for 1..3 factors, level lists [2,3],[3,2,2],[4,3]; Plackett-Burman n=1..23; '
+    'bounds': {'quick': 'generator sequences of 3 on shared parameter dicts (n=3); full factorial: 2- and 3-level generators for 1..3 factors, level lists [2,3],[3,2,2],[4,3]; Plackett-Burman n=1..23; '
                         'Box-Behnken n=3..5; GSD level lists [3,4],[2,3,4],[3,3,3],[4,4] with reductions 2..3 and every complementary count',
-               'thorough': 'full factorial up to 4 factors / level lists up to [3,4,2,2]; Box-Behnken n=3..7; GSD up to [3,4,6], reductions 2..4'},
+               'thorough': 'sequences of 3-4; full factorial up to 4 factors / level lists up to [3,4,2,2]; Box-Behnken n=3..7; GSD up to [3,4,6], reductions 2..4'},
     'stubs': [],
     'assumptions': ['configurations (factor counts, level counts, reductions) are enumerated, not symbolic: the combinatorial kernels are NumPy/SciPy '
                     'code on small integers and run concretely; the solver decides the laws for all level VALUES and bounds',
